@@ -301,6 +301,15 @@ impl Obj {
                     format!("{};{};{};{}", snap_list(t1), snap_list(t2), snap_list(b1), snap_list(b2)),
                 ))
             }
+            Obj::Wt(c) => {
+                let (w, m, _) = c.verif_parts();
+                let (p, q) = m.verif_segments();
+                Some((
+                    format!("{},{},{}", p.cap(), q.cap(), w.cap()),
+                    "0,0,0".into(),
+                    format!("{};{};{}", snap_list(p), snap_list(q), snap_list(w)),
+                ))
+            }
             _ => None,
         }
     }
